@@ -1,5 +1,6 @@
 // simlha: worker / replay / utility entry point of the simulator.
 #include "framework.h"
+#include <algorithm>
 #include <cerrno>
 #include <csignal>
 #include <cstdlib>
@@ -375,6 +376,36 @@ static int cmd_gen(int argc, char **argv) {
 	return 0;
 }
 
+// trace <prop> <tier> <seed> <from> <to> [stride offset]: one line per run with its trace hash (determinism self-test)
+static int cmd_trace(int argc, char **argv) {
+	if (argc < 7) return 2;
+	Scenario *sc = find_scenario(argv[2]);
+	if (!sc) return 2;
+	std::string tier = argv[3];
+	uint64_t seed = strtoull(argv[4], nullptr, 0), from = strtoull(argv[5], nullptr, 0), to = strtoull(argv[6], nullptr, 0);
+	uint64_t stride = argc > 7 ? strtoull(argv[7], nullptr, 0) : 1, off = argc > 8 ? strtoull(argv[8], nullptr, 0) : 0;
+	bool reverse = getenv("TRACE_REVERSE") != nullptr;
+	signal(SIGVTALRM, on_vtalrm);
+	std::vector<uint64_t> idx;
+	for (uint64_t i = from; i < to; ++i) if (i % stride == off) idx.push_back(i);
+	if (reverse) std::reverse(idx.begin(), idx.end());
+	for (uint64_t i : idx) {
+		Plan plan = sc->generate(seed, i, tier);
+		plan.property = argv[2];
+		plan.seed = seed;
+		plan.run = i;
+		arm_watchdog(60);
+		RunResult r = sc->execute(plan, nullptr);
+		g_sim.fs = nullptr;
+		arm_watchdog(0);
+		Fnv h;
+		h.str(plan.to_text());
+		printf("%llu %016llx %016llx %d\n", (unsigned long long) i, (unsigned long long) h.h, (unsigned long long) r.trace, (int) r.ok);
+	}
+	fflush(nullptr);
+	_exit(0);
+}
+
 int main(int argc, char **argv) {
 	if (argc < 2) { fprintf(stderr, "usage: simlha work|replay|shrinkcrash|count|gen|mkcorpus|selftest ...\n"); return 2; }
 	std::string cmd = argv[1];
@@ -383,6 +414,7 @@ int main(int argc, char **argv) {
 	if (cmd == "shrinkcrash") return cmd_shrinkcrash(argc, argv);
 	if (cmd == "count") return cmd_count(argc, argv);
 	if (cmd == "gen") return cmd_gen(argc, argv);
+	if (cmd == "trace") return cmd_trace(argc, argv);
 	if (cmd == "mkcorpus") return corpus_tool_main(argc, argv);
 	if (cmd == "selftest") return selftest_main(argc, argv);
 	fprintf(stderr, "unknown command %s\n", cmd.c_str());
